@@ -33,7 +33,7 @@ def stacking_case(draw):
             for _ in range(nser)]
     seed = draw(st.integers(0, 2 ** 32 - 1))
     special_rate = draw(st.sampled_from([0.0, 0.1, 0.5, 1.0]))
-    layout = draw(st.sampled_from(["C", "C", "F", "strided", "readonly"]))
+    layout = draw(st.sampled_from(["C", "C", "F", "strided", "readonly", "row_strided", "row_reversed"]))
     small = sum(lens) * N <= 24
     explicit = None
     if small:
@@ -70,6 +70,14 @@ def build_series(case):
             a = big[1::2, ::2]
         elif lay == "readonly":
             a.setflags(write=False)
+        elif lay == "row_strided":
+            # two recordings multiplexed row by row in one buffer: each is contiguous along a row, the rows are two apart
+            big = np.zeros((L * 2, case["N"]), dtype=np.float64)
+            big[si % 2::2] = a
+            big[(si + 1) % 2::2] = a[::-1]                 # (the other recording; copied, never computed: see `ambient`)
+            a = big[si % 2::2]
+        elif lay == "row_reversed":
+            a = np.ascontiguousarray(a[::-1])[::-1]          # negative row stride
         if lay == "C" and case.get("reuse_buffers"):
             a = buffers.reuse(f"C10.series.{si}", a)     # the same array object as in earlier cases, refilled in place
         out.append(a)
